@@ -143,9 +143,10 @@
 (define (list . l) l)
 
 (define (length list)
-    (cond
-      ((null? list) 0)
-      (else (+ (length (cdr list)) 1))))
+    (if (list? list)
+        (let loop ((rest list) (n 0))
+          (if (null? rest) n (loop (cdr rest) (+ n 1))))
+        (error "length: not a proper list" list)))
 
 (define (memq obj list)
     (cond
